@@ -69,6 +69,18 @@ def run(ctx):
                 resets.append((m, slots))
             good = [(m, [s_ for s_ in slots if s_ in prologue_slots]) for m, slots in resets]
             ctx.inst(R2, key, sites=len(tick_tpls), sample={"tick_arm_resets": [(m["text"][:80], sl) for m, sl in resets][:4], "prologue_slots": sorted(prologue_slots)[:12]})
+            # two persistence arguments govern two different pieces of state: their resets must target different identifiers
+            by_scrut = {}
+            for m, sl in good:
+                mm = re.match(r"match (.*) => ", m["conds"][-1])
+                if mm and sl and not re.search(r"\. drain \( \)", m["text"]):
+                    by_scrut.setdefault(mm.group(1), set()).update(sl)
+            scr = sorted(by_scrut)
+            for i_ in range(len(scr)):
+                for j_ in range(i_ + 1, len(scr)):
+                    if by_scrut[scr[i_]] == by_scrut[scr[j_]]:
+                        ctx.violation(R2, key + "|same-slot-for-two-persistences", "the end-of-tick resets selected by `%s` and by `%s` both re-initialise %s: one piece of state is reset under the wrong "
+                                      "persistence argument and the other is never reset" % (scr[i_], scr[j_], sorted(by_scrut[scr[i_]])), loc)
             if not any(sl for m, sl in good):
                 ctx.violation(R2, key + "|no-reset", "no template on a Persistence::Tick arm of `%s` re-initialises (assigns / clear()s / drain()s) a state identifier declared in the operator's "
                               "prologue: 'tick state would survive into the next tick" % op.name, loc)
